@@ -137,7 +137,7 @@ func (s *Spec) write(overwrite bool) error {
 	}
 
 	if filepath.Ext(s.path) == ".yaml" {
-		data, err = orderedyaml.Marshal(s.Spec)
+		data, err = marshalYAML(s.Spec)
 		data = append([]byte("---\n"), data...)
 	} else {
 		data, err = marshalJSON(s.Spec)
@@ -170,6 +170,25 @@ func (s *Spec) write(overwrite bool) error {
 	}
 
 	return err
+}
+
+// marshalYAML encodes the Spec as YAML. The block scalars yaml.v3 emits for
+// some multi-line strings (for instance ones starting with a line break or
+// containing tab-indented lines) are read back altered or not at all. If the
+// encoded Spec does not parse back to the original, fall back to the JSON
+// encoding, which is valid (flow style) YAML, too.
+func marshalYAML(raw *cdi.Spec) ([]byte, error) {
+	data, err := orderedyaml.Marshal(raw)
+	if err != nil {
+		return nil, err
+	}
+	if parsed, err := ParseSpec(data); err == nil && parsed != nil {
+		want, _ := json.Marshal(raw)
+		if got, _ := json.Marshal(parsed); bytes.Equal(got, want) {
+			return data, nil
+		}
+	}
+	return marshalJSON(raw)
 }
 
 // marshalJSON encodes the Spec as JSON. Characters which are valid in JSON
